@@ -112,8 +112,8 @@ impl Prop for C01 {
     }
     fn cases(&self, tier: Tier) -> u64 {
         match tier {
-            Tier::Quick => 1 << 18,
-            Tier::Thorough => 1 << 24,
+            Tier::Quick => 1 << 20,
+            Tier::Thorough => 1 << 25,
         }
     }
     fn strategy(&self, _tier: Tier) -> BoxedStrategy<Case> {
